@@ -87,8 +87,9 @@ PROPS["C03"] = {
              "in fragment payloads or across reassembled fragments of any output of any call; finished: Send fails with no output; required: only a query; encrypted: the text is the plaintext of a data message under keys derived from the DH secrets; "
              "positive control: every text sent in plaintext state is found by the scanner. Non-trivial: texts sent in >=2 protection situations in one script, one of them finished or require-encryption."),
     "assumptions": COMMON_ASSUME,
-    "exhaustive_checks": ["C03faults", "C03policies"],
+    "exhaustive_checks": ["C03queued", "C03faults", "C03policies"],
     "tests": [
+        {"name": "TestProp_C03_Queued", "kind": "plain", "quick": {"shards": 4, "timeout": 600}, "thorough": {"shards": 4, "timeout": 3000}},
         {"name": "TestProp_C03_Faults", "kind": "plain", "quick": {"shards": 8, "timeout": 600}, "thorough": {"shards": 16, "timeout": 3000}},
         {"name": "TestProp_C03_Leak", "quick": {"shards": 8, "checks": 120, "timeout": 400}, "thorough": {"shards": 16, "checks": 2500, "timeout": 3000}},
         {"name": "TestProp_C03_Policies", "kind": "plain", "quick": {"shards": 8, "timeout": 400}, "thorough": {"shards": 16, "timeout": 3000}},
@@ -121,8 +122,9 @@ PROPS["C18"] = {
              "no other security events; Send refused without output while finished; clear text output in plaintext state without require-encryption. Transmissions (observer-decrypted): each text verbatim at most once and in Send order; "
              "'[resent] ' only for the most recent text, at most once, only after an ?OTR Error received while encrypted, never for non-text messages. Non-trivial: >=2 sessions for one party or a resend occurred."),
     "assumptions": COMMON_ASSUME,
-    "exhaustive_checks": ["C18ended", "C18faults"],
+    "exhaustive_checks": ["C18queued", "C18ended", "C18faults"],
     "tests": [
+        {"name": "TestProp_C18_Queued", "kind": "plain", "quick": {"shards": 4, "timeout": 600}, "thorough": {"shards": 4, "timeout": 3000}},
         {"name": "TestProp_C18_Ended", "kind": "plain", "quick": {"shards": 4, "timeout": 600}, "thorough": {"shards": 4, "timeout": 3000}},
         {"name": "TestProp_C18_Faults", "kind": "plain", "quick": {"shards": 8, "timeout": 600}, "thorough": {"shards": 16, "timeout": 3000}},
         {"name": "TestProp_C18_Lifecycle", "quick": {"shards": 8, "checks": 150, "timeout": 400}, "thorough": {"shards": 16, "checks": 3000, "timeout": 3000}},
@@ -382,7 +384,7 @@ _EXTRA = {
     "C11": " Added: C11short - each of 26 values of the reference prover's messages forced to have a zero top byte (one byte shorter as MPI) by re-drawing its randomness; equal secrets must succeed, different ones fail.",
     "C14": " Added: a piece with the right index in the other version's header format and a payload of its own arrives before the genuine last piece; C14unbound: pieces of two peer instances interleaved at a conversation that knows no peer instance yet (every order-preserving interleaving of 2- and 3-piece messages, with one repetition).",
     "C16": " Added: form 7 - a D-H Commit of a forbidden version (genuine, or relabelled and correctly addressed) after 0..5 handshake messages and in the established session: no reply, no state change, the handshake completes and text flows.",
-    "C18": " Added: End() closes the books for resending; C18faults (failing read at every position of a key exchange) and C18ended (the peer's error message at five points around peer-ended/End()/new session) are enumerated.",
+    "C18": " Added: End() closes the books for resending; C18faults (failing read at every position of a key exchange) and C18ended (the peer's error message at five points around peer-ended/End()/new session) are enumerated; texts accepted while waiting for encryption must all be transmitted in the call that starts the session (C18queued: 1-3 queued texts, time passing on either side before the peer answers, with or without an earlier session).",
     "C19": " Added: runs of forgeries walking over the acceptable key-id pairs, unauthenticated fragment floods with reserved/foreign/unparsable tags, error-request plus re-key cycles with a silent user, listen-only parties whose only output is the heartbeat.",
     "C20": " Added: the application's memory is judged: pass-phrase buffers shared by all pairs must be unchanged, and every message or plaintext handed out by the library must still read as it did when returned (checked after each solo run and after the concurrent rounds); every pair provokes a generated error message while encrypted.",
     "C08": " Added: C08faults - one party's randomness fails from read k on (k=0..14, persistent or one-shot, error or short read) during a handshake; secrets of an exchange the party has left must be gone, decided by presenting the refused final message once more on a healed source.",
